@@ -16,6 +16,7 @@ def check(ctx: Ctx) -> None:
     # "... even if gather_and_close() is called after the request was accepted": the close must wait for every spawner
     from . import close as CL
     CL.r_gather_complete(ctx, "R04.7", ("gather_and_close",))
+    CL.r_fresh_members(ctx, "R04.12", clauses=("copy",))
     from .elemtrack import r_spawner_kept
     r_spawner_kept(ctx, "R04.6")
     S.r_wiring(ctx, "R04.3w", {"GROUP", "FUNC", "ARGS", "KWARGS", "NUM"}, 10, "group/func/args/kwargs/num roles")
